@@ -58,7 +58,8 @@ def run(ctx):
                 sig = F.projection_root(strip_sites(s.args[1]))
                 ctx.ob("E5.chain", "AggregateSignature<C>::verify->%s" % s.callee[0], ok and sig is not None and sig[0].a[1] == "self", "passes a 1:1 map over the whole `data` list and its own signature: %s" % show(it, 4), where=where(v, bb))
     # scheme methods: (tag, list) routing + exit census
-    K.check_core_table(ctx, P)
+    K.check_core_table(ctx, P, methods=("aggregate_verify",), siblings=False)
+    K.check_core_forwarding(ctx, P, rule="E5.forward", methods=("aggregate_verify",))
     for tr, may_fail in (("BlsSignatureMessageAugmentation", False), ("BlsSignaturePop", False)):
         g = ctx.need_fn("E4.exits", "%s::aggregate_verify" % tr)
         if g is None:
